@@ -296,6 +296,8 @@ pub enum Fault {
     None,
     Drop,
     DupNow,
+    /// k extra copies delivered back to back (a duplicating path element)
+    DupMany(u8),
     /// second copy after k further deliveries to the same side
     DupLate(u8),
     /// hold the datagram until k later datagrams were delivered to the same side
@@ -310,6 +312,7 @@ impl Fault {
             Fault::None => "none".into(),
             Fault::Drop => "drop".into(),
             Fault::DupNow => "dup".into(),
+            Fault::DupMany(k) => format!("dupx{k}"),
             Fault::DupLate(k) => format!("duplate{k}"),
             Fault::Delay(k) => format!("delay{k}"),
             Fault::DropBurst(k) => format!("dropburst{k}"),
